@@ -119,6 +119,8 @@ class G:
             return self.fn(vis, d)
         if k == 24 and self.closures and infn and d <= 1 and r.chance(2, 3):
             return self.escape(vis, d, infn, inloop)
+        if k == 23 and self.closures and infn and d <= 1 and r.chance(2, 3):
+            return self.shadow(vis, d, infn, inloop)
         return self.call(vis, d, infn, inloop)
 
     def call(self, vis, d, infn, inloop):
@@ -259,6 +261,150 @@ class G:
             return "(if %s %s %s)" % (c, small(v), blk)
         out.append(level(1, vis, [], 0))
         out += later(vis, r.range(1, 4))
+        return "(upscope %s)" % " ".join(out)
+
+    def shadow(self, vis, d, infn, inloop):
+        """a local X of the enclosing scope; 1-3 nested scopes (do / do in do / upscope + do / if branch / else branch / while
+        body / function parameter) that define ANOTHER local of the same name X (def / var / parameter; the initialiser may
+        read the enclosing X) captured by a closure (read, set) which is called on the spot or escapes into an array / var
+        outside; after the inner scope has closed X is read again (plain, call argument, tuple, inside another closure, if
+        branch, while body, initialiser of a later local) and set when it is a var, where it means the OUTER local.  The
+        register / upvalue index of every such use depends on popscope making the closed scope's names invisible, captured or
+        not."""
+        r = self.r
+        self.feats.add("shadow")
+
+        def new():
+            self.n += 1
+            return "v%d" % self.n
+
+        def small(v):
+            return self.expr(v, self.maxdepth, infn, inloop)
+        X = new()
+        omut = r.chance(1, 2)
+        self.feats.add("shadow-outer-" + ("var" if omut else "def"))
+        out = ["(%s %s %s)" % ("var" if omut else "def", X, small(vis))]
+        vis.append((X, omut))
+        store = r.choice(["none", "none", "array", "var"])
+        self.feats.add("shadow-store-" + store)
+        g = None
+        if store != "none":
+            g = new()
+            out.append("(def %s @[])" % g if store == "array" else "(var %s nil)" % g)
+            vis.append((g, store == "var"))
+        if r.chance(1, 4):
+            self.feats.add("shadow-outer-captured")
+            out.append("(fn [] %s)" % X if r.chance(1, 2) else "(emit (fn [] (tuple %s)))" % X)
+        levels = r.choice([1, 1, 2, 2, 3])
+        self.feats.add("shadow-levels-%d" % levels)
+
+        def closure(mut):
+            body = []
+            if mut and r.chance(2, 3):
+                body.append("(set %s (inc %s))" % (X, X))
+            body.append(r.choice([X, "(inc %s)" % X, "[%s]" % X, "(tuple %s a)" % X if any(w[0] == "a" for w in vis) else X]))
+            return "(fn [] %s)" % " ".join(body)
+
+        def uses(v, mut, k):
+            o = []
+            for _ in range(k):
+                c = r.below(11 if mut else 8)
+                self.feats.add("shadow-use-%d" % c if c < 8 else "shadow-use-set")
+                if c == 0:
+                    o.append(X)
+                elif c == 1:
+                    o.append("(emit %s)" % X)
+                elif c == 2:
+                    o.append("(tuple %s %s (inc %s))" % (small(v), X, X))
+                elif c == 3:
+                    o.append("((fn [] %s))" % X if r.chance(1, 2) else "(emit (fn [] (inc %s)))" % X)
+                elif c == 4:
+                    o.append("(if %s (emit %s) (emit [%s]))" % (small(v), X, X))
+                elif c == 5:
+                    o.append("(while (emit %s) (emit (inc %s)) (break))" % (X, X))
+                elif c == 6:
+                    nm = new()
+                    o.append("(%s %s %s)" % (r.choice(["def", "var"]), nm, r.choice([X, "(inc %s)" % X])))
+                    v.append((nm, o[-1].startswith("(var")))
+                    o.append("[%s %s]" % (nm, X))
+                elif c == 7:
+                    o.append("(do (def %s (dec %s)) (emit %s))" % (new(), X, X))
+                elif c == 8:
+                    o.append("(set %s (inc %s))" % (X, X))
+                elif c == 9:
+                    o.append("((fn [] (set %s %s)))" % (X, small(v)))
+                else:
+                    o.append("(if %s (set %s %s))" % (small(v), X, small(v)))
+                    o.append("(emit %s)" % X)
+            return o
+
+        def level(l, v, emut):
+            kind = r.choice(["do", "do", "do-do", "upscope-do", "if-do", "if-else", "while", "fn-param"])
+            self.feats.add("shadow-" + kind)
+            param = kind == "fn-param"
+            defines = l == levels or param or r.chance(1, 2)
+            v0 = list(v)             # what the enclosing scope sees (condition, argument)
+            v = list(v)
+            b = []
+            if not param and r.chance(1, 4):
+                b.append("(emit %s)" % X)
+            init = r.choice(["(inc %s)" % X, "(tuple %s)" % X, small(v), small(v)])
+            mut = emut
+            if defines:
+                mut = (not param) and r.chance(1, 2)
+                self.feats.add("shadow-inner-" + ("param" if param else "var" if mut else "def"))
+                if not param:
+                    b.append("(%s %s %s)" % ("var" if mut else "def", X, init))
+                v.append((X, mut))
+            if defines or r.chance(1, 3):
+                c = r.below(3)
+                if store == "none" or c == 0:
+                    self.feats.add("shadow-closure-called")
+                    if r.chance(1, 2):
+                        f = new()
+                        b.append("(def %s %s)" % (f, closure(mut)))
+                        v.append((f, False))
+                        b.append("(emit (%s))" % f)
+                    else:
+                        b.append("(emit (%s))" % closure(mut))
+                if store != "none":
+                    self.feats.add("shadow-closure-escapes")
+                    b.append(("(array/push %s %s)" if store == "array" else "(set %s %s)") % (g, closure(mut)))
+            if r.chance(1, 4):
+                b.append(small(v))
+            if l < levels:
+                b.append(level(l + 1, v, mut))
+                if defines or r.chance(1, 2):
+                    self.feats.add("shadow-intermediate-use")
+                    b += uses(v, mut, 1)
+            if r.chance(1, 3):
+                b.append(r.choice([X, "((fn [] %s))" % X]))
+            blk = "(do %s)" % " ".join(b)
+            c = small(v0) if not r.chance(1, 4) else r.choice(["true", "false", "nil", ":k"])
+            if kind == "do":
+                return blk
+            if kind == "do-do":
+                return "(do %s %s)" % (small(vis), blk) if r.chance(1, 2) else "(do %s)" % blk
+            if kind == "upscope-do":
+                return "(upscope %s)" % blk
+            if kind == "if-do":
+                return "(if %s %s)" % (c, blk) if r.chance(1, 2) else "(if %s %s %s)" % (c, blk, X)
+            if kind == "if-else":
+                return "(if %s %s %s)" % (c, X, blk)
+            if kind == "while":
+                return "(while %s %s (break))" % (c, " ".join(b))
+            return "((fn [%s] %s) %s)" % (X, " ".join(b), init)
+        nest = level(1, vis, omut)
+        if r.chance(1, 4):
+            self.feats.add("shadow-nest-as-argument")
+            out.append("(tuple %s %s)" % (nest, X))
+        else:
+            out.append(nest)
+        out += uses(vis, omut, r.range(1, 3))
+        if g is not None:
+            out.append("((first %s))" % g if store == "array" else "(%s)" % g)
+            if r.chance(1, 2):
+                out += uses(vis, omut, 1)
         return "(upscope %s)" % " ".join(out)
 
     def body(self, vis, d, infn, inloop, n):
